@@ -72,6 +72,11 @@ type Cfg struct {
 	Scheme    string // client signature scheme
 	Funding   int64  // genesis balance per client
 	ColdCache bool   // execute with an empty shared state cache
+	// ViewChange enables the miner contract's view-change machinery (read by the chain config at creation).
+	ViewChange bool
+	// Viper holds extra per-run configuration keys applied before the chain is created.
+	// Plans carry them as Cfg entries "viper:<key>" with integer values.
+	Viper map[string]any
 }
 
 func CfgFromPlan(p *sim.Plan) Cfg {
@@ -85,6 +90,15 @@ func CfgFromPlan(p *sim.Plan) Cfg {
 	}
 	if p.CfgInt("ed25519", 0) != 0 {
 		c.Scheme = "ed25519"
+	}
+	c.ViewChange = p.CfgInt("view_change", 0) != 0
+	for k, v := range p.Cfg {
+		if len(k) > 6 && k[:6] == "viper:" {
+			if c.Viper == nil {
+				c.Viper = map[string]any{}
+			}
+			c.Viper[k[6:]] = v
+		}
 	}
 	return c
 }
@@ -147,6 +161,10 @@ func NewWorldWith(seed uint64, cfg Cfg, tr *sim.Trace, early func(w *World)) *Wo
 		viper.Set("server_chain.transaction.max_fee", 1)
 	} else {
 		viper.Set("server_chain.transaction.max_fee", 0)
+	}
+	viper.Set("server_chain.view_change", cfg.ViewChange)
+	for k, v := range cfg.Viper {
+		viper.Set(k, v)
 	}
 	Store.Reset()
 
